@@ -346,6 +346,15 @@ Proof.
   - eapply lexmin_ref_nopoint; eauto.
 Qed.
 
+Theorem lexmin_ref_exact_thm fuel pb q :
+  (forall p, lexmin_ref fuel pb q = Found p -> lexmin pb q (proj (is_par pb) p)) /\
+  (lexmin_ref fuel pb q = NoPoint -> bottom pb q).
+Proof.
+  split.
+  - intros p H. apply lexmin_full_lexmin. eapply lexmin_ref_found; eauto.
+  - apply lexmin_ref_nopoint.
+Qed.
+
 (* the hypotheses are satisfiable and both outcomes occur:  x + y >= 3, 2y <= p  at p = 3 gives
    (2,1);  2x = 1 has no integral point;  x - y = 0 ... *)
 Example ref_ex1 :
